@@ -60,7 +60,10 @@ def build(case):
             isig = h[n].op.inner_signature()
             h.add_node(ops.Input(isig.input), n)
             h.add_node(ops.Output(isig.output), n)
-    info["applied"] = apply_history(h, case.get("hist") or [], valid_ports_only=True)
+    hist = case.get("hist") or []
+    # every other history is interrupted by serializations (pure queries) after every second step
+    probe = (lambda: h.to_json()) if len(json.dumps(hist, default=repr)) % 2 else None
+    info["applied"] = apply_history(h, hist, valid_ports_only=True, probe=probe)
     nodes = list(h)
     for (k, key, v) in case.get("md", []):
         h[nodes[k % len(nodes)]].metadata[key] = v
@@ -239,6 +242,12 @@ def run(ctx):
                 case["md"] = gen_md(r)
         if mode == "history":
             case["hist"] = gen_history(r, max_steps=30, metadata=True)
+            if (i // 4) % 3 == 0:
+                # serializations between deletions and index re-use
+                from vf.gen.histories import gen_probe_history
+
+                case["hist"] = gen_probe_history(r)
+                ctx.feat("feature:serialized-mid-history")
             if r.random() < 0.3:
                 case["md"] = gen_md(r)
         if mode == "attr-rich":
